@@ -680,6 +680,9 @@ def m_round(ctx, interp, args, kwargs):
             half = z3.RealVal("1/2")
             up = z3.Or(frac > half, z3.And(frac == half, fl % 2 == 1))
             return SInt(z3.If(up, fl + 1, fl))
+    nd = args[1] if len(args) > 1 else kwargs.get("ndigits")
+    if len(args) >= 1 and isinstance(args[0], SInt) and isinstance(nd, int) and not isinstance(nd, bool) and nd >= 0:
+        return args[0]          # round(int, ndigits >= 0) is the int itself
     raise Unsupported("round() of symbolic value with ndigits")
 
 
